@@ -45,6 +45,21 @@ CHECKS = {
     text="Exhaustive over a boundary grid (14 packet types, every CONNECT flag combination incl. will QoS, PUBLISH header flags, remaining length at 0/1/127/128/16383/16384/65530/65531/65535, 0..3 tuples, ids 0/1/256/65535): EncodeTo must produce exactly the bytes the specification computes, DecodePacket of those bytes must give the packet's fields (hence the round trip), bodies above the encoder's buffer must be refused with an error.",
     note="The specification's layout is itself validated on every packet by decoding the expected bytes with github.com/eclipse/paho.mqtt.golang/packets (disagreement = exit 2). Strings/payloads are runs of a single byte value.",
     ref="4.8, 5/C16"),
+ "C03": dict(
+    level="exploration", technique="AuthZ.tla: the property's target rule (Covers) and the code's bit-path arithmetic (CodeCovers) as TLA+ relations; TLC proves all their differences are named deviations and enumerates the decision grid; every tuple decided by the real Service.Authorize under the 3 license versions",
+    text="Exhaustive over the grid: every (target, request) pair over {a,b,+} with exact and '#/' forms up to depth 3 (quick) / 4 (thorough) with an otherwise perfect key, plus every combination of decryptable / contract / signature / master id / permission mask / expiry / ban / operation. Real keys are minted with the real SetTarget + cipher of license v1, v2, v3; the real Authorize must give the verdict the property prescribes. TLC also checks that the code-shaped rule differs from the property's rule only on the named deviation (known finding trailing_plus_dead).",
+    note="Two literals and '+'; deeper targets and a third literal are not enumerated (the rule is level-wise). Entry points other than Authorize are exercised in C02/C07/C11/C18.",
+    ref="4.2, 5/C03"),
+ "C11": dict(
+    level="exploration", technique="AuthZ.tla KeyGen/CreateKey/ExtendKey as TLA+ functions with containment lemmas checked by TLC; the request grid replayed as emitter/keygen/ requests on a real broker; returned keys decrypted, compared and used",
+    text="Exhaustive over parent kinds x type strings x ttl classes x channels. TLC checks the containment lemmas (never master, perms subset of requested and of the parent for extension, only valid masters/extendable keys mint) on the design and emits the prescribed result and the grants of the derived key; the real broker must answer with the same status, the returned key must decrypt to the prescribed fields (permissions, contract, signature, master id, target bytes, expiry) and grant exactly the prescribed operations (Authorize on 20 probes; SUBSCRIBE/PUBLISH entry points for a subset, where extendable keys must be refused).",
+    note="Refusal codes are compared as refusals. Expiry tolerance 10 s. The HTTP keygen form is not driven.",
+    ref="4.2, 5/C11"),
+ "C12": dict(
+    level="exploration", technique="AuthZ.tla attacker model (field-level tamper operations under an authenticated / block / stream cipher abstraction) checked by TLC; each operation concretised on real key strings under the 3 license ciphers and decided by the real Service.Authorize",
+    text="TLC shows TamperSafe for an authenticated cipher and for the block cipher abstraction, and produces the gains for the stream abstraction. Every model case (3024) is applied as a byte-level operation to a real issued key under license v1 (XTEA), v2 (XSalsa20) and v3 (salted Salsa20), plus seeded single-character substitutions and multi-byte xor masks; a modified key must grant nothing the original did not (30 probes). Gains under v2/v3 that the stream model predicts are the known finding stream_malleable; anything else (any gain under v1, any unpredicted gain) is a violation.",
+    note="Bounded attacker: modifications of one issued key; no cryptanalysis; 2^-32 signature/target collisions under XTEA excluded.",
+    ref="4.2, 5/C12"),
 }
 
 NOT_YET = "check not built yet in this session (planned, see DESIGN.md section 5); not claimed until its machinery exists"
